@@ -473,6 +473,30 @@ func init() {
 						}
 						c.Report(Finding{Class: "violation", What: fmt.Sprintf("serialization %q %s against base %q: %s", href, w, b, self.String()), Case: cs, Host: alone.Fields[fHostname]})
 					}
+					// ... also under the diagnostics and relaxing options: where the serialization parses alone (under fail-on-validation-
+					// error: raises no validation error) and the base parses, it resolves to the same URL (a base adds no error of its own)
+					oc := optCfgs[(i/3)%len(optCfgs)]
+					// (the serialization is that parser's own: what it gives for the text, parsed once more to a fixed point)
+					if pre := implParse(oc.Parser, nil, href); pre.Kind == "U" {
+						href = pre.Fields[fHref]
+					}
+					if a0 := implParse(oc.Parser, nil, href); a0.Kind == "U" && a0.Fields[fHref] == href && implParse(oc.Parser, nil, b).Kind == "U" {
+						bb := b
+						s2 := c.cmpParse(d, oc, &bb, href, allFields, true, "self-resolution:"+oc.Desc, i)
+						bad2 := s2.Kind != "U"
+						if !bad2 {
+							for _, k := range urlFieldsOnly {
+								if s2.Fields[k] != a0.Fields[k] {
+									bad2 = true
+								}
+							}
+						}
+						if bad2 {
+							cs2 := cs
+							cs2.Cfg, cs2.Input = oc.Desc, href
+							c.Report(Finding{Class: "violation", What: fmt.Sprintf("under %s the serialization %q parses alone to %s but against base %q gives %s", oc.Desc, href, a0.Fields[fHref], b, s2.String()), Case: cs2, Host: a0.Fields0(fHostname)})
+						}
+					}
 				}
 			})
 		},
